@@ -17,6 +17,6 @@ class MatchControlConstructionTokenTranslator(AbstractTranslator):
 
         lookup_value, match_type \
             = ExpressionTokenTranslator.translate(token.lookup_value, excel, context), \
-              ExpressionTokenTranslator.translate(token.match_type, excel, context)
+              ExpressionTokenTranslator.translate(token.match_type, excel, context) if token.match_type else '1'
 
         return context.set_sub_cell(token.in_cell, f'self._match({lookup_value}, {lookup_array}, {match_type})')
